@@ -60,7 +60,7 @@ func addFallback(m *minify.M) { m.AddFuncRegexp(fallbackRe, streamStub) }
 var c12Entries = []int{EPlain, EBytes, EString, EReader, EWriter, ERespWriter, EMiddleware, EMiddleErr, EMatch}
 
 var mtExt = map[string]string{"text/html": ".html", "text/css": ".css", "application/javascript": ".js",
-	"application/json": ".json", "image/svg+xml": ".svg", "text/xml": ".xml", MTStream: ".strm", MTFail: ".fail", MTEarly: ".early", MTWrap: ".wrap"}
+	"application/json": ".json", "image/svg+xml": ".svg", "text/xml": ".xml", MTStream: ".strm", MTFail: ".fail", MTFailEarly: ".failearly", MTEarly: ".early", MTWrap: ".wrap"}
 
 // errText never panics: a broken tree may hand back an error interface that wraps a nil
 // pointer.
@@ -103,7 +103,7 @@ func c12Case(env *Env, tape *sim.Tape) *CaseOut {
 	partMode := tape.Draw(2)
 	mask := uint64(tape.Draw(1 << 30))
 	ctMode := tape.Draw(6)
-	uriMode := tape.Draw(6)
+	uriMode := tape.Draw(8)
 	clMode := tape.Draw(2)
 	statusMode := tape.Draw(3)
 	useBytes := tape.Draw(2) == 1
@@ -197,6 +197,11 @@ func c12Case(env *Env, tape *sim.Tape) *CaseOut {
 			op.RequestURI = "/file" + ext
 		case 5:
 			op.RequestURI = "/assets/file" + ext + "?v=3&x=a.b" // the request path is what is before '?'
+		case 6:
+			// a URL as a query value, not escaped (redirect targets, theme parameters)
+			op.RequestURI = "/index" + ext + "?next=https://example.org/home"
+		case 7:
+			op.RequestURI = "/page" + ext + "?theme=http://cdn.example.org/a" + mtExt[other]
 		}
 		if ctMode == 4 || ctMode == 5 {
 			op.RequestURI = "/misleading" + mtExt[other]
@@ -208,6 +213,15 @@ func c12Case(env *Env, tape *sim.Tape) *CaseOut {
 			op.RespHeader = http.Header{"Etag": {`"abc"`}, "Cache-Control": {"max-age=60"}, "X-Content-Type-Options": {"nosniff"}}
 		case 7:
 			op.CtxCancelled = true
+		case 4:
+			// the handler declares a content coding (a precompressed asset, or the common
+			// misconfiguration "UTF-8"): the type is still picked from Content-Type
+			op.RespHeader = http.Header{"Content-Encoding": {[]string{"gzip", "br", "UTF-8", "deflate"}[(mask>>22)%4]}}
+		case 3:
+			if clMode == 0 && statusMode == 0 {
+				op.LateHeader = true
+				out.stat("probe_content_length_set_after_first_write", 1)
+			}
 		}
 		if (mask>>13)%4 == 3 {
 			// extensions are not case-sensitive (INDEX.HTML is an HTML file)
